@@ -19,7 +19,9 @@ NAMES = ["start", "a", "b", "c", "d", "e"]
 
 TEXT_RX = ["[ab]", "[ab]+", "a+", "b?a", "(ab|b)", "[a-c]{1,2}", "[0-9]+", "[01]{2}", "a[ab]?",
            # an optional / repeated tail behind a separator: a complete match can still be extended
-           "a+(ba+)?", "[01]+(a[01]+)?", "b(ab)*"]
+           "a+(ba+)?", "[01]+(a[01]+)?", "b(ab)*",
+           # shorthand classes (their instances come from exrex's category tables)
+           "\\W", "b\\W?", "\\w{1,2}"]
 TEXT_RX_EMPTY = ["a*", "[ab]*", "b?", "(ab)?"]
 TEXT_RX_NON_ASCII = ["[aé]+", "é+", "é?a", "[é€]{1,2}", "(é|ab)+", "aé?"]
 BIN_RX = ["[ab]", "[ab]+", "a+", "[0-9]{1,2}", "\\w+", "a\\s?b", "(?i)[a-c]+", "\\w{1,2}"]
